@@ -21,6 +21,16 @@ Results: an execution (own or shared through `startExecution`) ends with an `Out
 bare error plus the `taskFailure` marker; every activation that takes it (the executor and
 each dedup waiter) derives its own result with `wrapFor` from its own `indirect` flag
 (`Act.out` ↦ `Act.res`; invariant `res = wrapFor indirect out`, `S2.OutInv`).
+
+Waiting for a deduplicated task (fix of `C07-once-cycle-deadlocks`): every activation knows
+the innermost registered execution it is part of (`Act.par`, the context value
+`executionKey{}`; inherited at `enter`, also by deferred calls); `Config.waits` records, per
+execution, the executions it cannot finish before — those registered from within it and
+those one of its calls waits for (`Eff.reg`, `Eff.wait`; never removed, an edge whose source
+has finished is ignored).  A call that finds its key registered waits (`Ev.waiter`) unless
+the registered execution reaches the caller's own along `waits` (`reaches`,
+`Config.execWaitsFor` = `other.waitsFor(parent)`); then the wait is refused (`Ev.waitCycle`)
+and the call returns 204.  `S7.WInv`: the relation is acyclic on unfinished executions.
 -/
 namespace TaskModel.Sched
 
